@@ -71,7 +71,7 @@ type C16Swamp struct {
 }
 
 type C16Step struct {
-	Kind string      `json:"kind"` // burst | gap | idle | close | closeduring | destroy | destroyduring | delall | shiftall | shiftexp | shiftexpsome | delsome | shiftsome
+	Kind string      `json:"kind"` // closeover | burst | gap | idle | close | closeduring | destroy | destroyduring | delall | shiftall | shiftexp | shiftexpsome | delsome | shiftsome
 	Ms   int         `json:"ms,omitempty"`
 	W    []C16Writer `json:"w,omitempty"`
 	Ev   []C16Event  `json:"ev,omitempty"`
@@ -92,6 +92,7 @@ type C16Event struct {
 	Kind   string `json:"kind"` // close | delall | shiftall | destroy | delkey (Delete of shared key k<Key>)
 	Key    int    `json:"key,omitempty"`
 	AtUs   int    `json:"at_us,omitempty"`
+	LateUs int    `json:"late_us,omitempty"` // close: time between the listener-like check "no active vigil" and the Close() call
 	After  string `json:"after,omitempty"`
 	Signal string `json:"signal,omitempty"`
 }
@@ -222,7 +223,7 @@ func (s *c16Sw) end(t0 time.Time, recs ...c16Rec) {
 	s.mu.Lock()
 	defer s.mu.Unlock()
 	s.lastTouch = now
-	if s.open && s.idle < 600 && now.Sub(t0) > 700*time.Millisecond && s.unjudgeable == "" {
+	if s.open && !s.closeSafe() && s.idle < 600 && now.Sub(t0) > 700*time.Millisecond && s.unjudgeable == "" {
 		// a request that took this long may have spanned an idle-close decision (open finding): do not judge
 		s.unjudgeable = fmt.Sprintf("a request took %v (stall)", now.Sub(t0))
 	}
@@ -279,6 +280,37 @@ func (s *c16Sw) set(key, val string, exp int) {
 		s.class("handler-returned-nil")
 	}
 	s.end(t0, rec)
+}
+
+// mset writes n (<= 37) private keys of writer w in ONE Set request.
+func (s *c16Sw) mset(w, n int, tag string) {
+	if n > 37 {
+		n = 37
+	}
+	var kvs []*hydrapb.KeyValuePair
+	var recs []c16Rec
+	for j := 0; j < n; j++ {
+		v := s.nextVal(tag)
+		kvs = append(kvs, &hydrapb.KeyValuePair{Key: fmt.Sprintf("m%d_%d", w, j), StringVal: &v})
+		recs = append(recs, c16Rec{key: fmt.Sprintf("m%d_%d", w, j), val: v, what: "Set(multi-key)"})
+	}
+	c, t0 := s.begin()
+	ctx, cancel := s.ctx()
+	resp, err := s.e.r.G.Set(ctx, &hydrapb.SetRequest{Swamps: []*hydrapb.SwampRequest{{IslandID: s.isl, SwampName: s.name,
+		CreateIfNotExist: true, Overwrite: true, KeyValues: kvs}}})
+	cancel()
+	st := map[string]hydrapb.Status_Code{}
+	if err == nil && resp != nil && len(resp.Swamps) == 1 && resp.Swamps[0].ErrorCode == nil {
+		for _, ks := range resp.Swamps[0].KeysAndStatuses {
+			st[ks.Key] = ks.Status
+		}
+	}
+	for i := range recs {
+		recs[i].call = c
+		x, ok := st[recs[i].key]
+		recs[i].acked = ok && (x == hydrapb.Status_NEW || x == hydrapb.Status_UPDATED)
+	}
+	s.end(t0, recs...)
 }
 
 func (s *c16Sw) inc(key string) {
@@ -394,13 +426,65 @@ func c16AllKeys() []string {
 	keys := []string{"pin", "x", "x0", "x1", "f0", "f1", "k0", "k1", "k2", "k3"}
 	for w := 0; w < 6; w++ {
 		keys = append(keys, fmt.Sprintf("i%d", w), fmt.Sprintf("p%d", w), fmt.Sprintf("s%d", w))
+		for j := 0; j < 37; j++ {
+			keys = append(keys, fmt.Sprintf("m%d_%d", w, j))
+		}
 	}
 	return keys
 }
 
 // injectClose stands for "the idle listener decided to close now": like the listener it only closes an instance
 // without active vigils, and it calls the same Swamp.Close().
-func (s *c16Sw) injectClose() {
+// closeSafe: reserved for engine versions in which a Close() overlapping ordinary traffic is harmless. On the current tree it
+// is not: in immediate-write mode a save that lands in a closing / closed instance is written through by that instance itself
+// (SaveFunction -> fileWriterHandler(false); the chronicler re-opens its writer), but as soon as a SUCCESSOR instance of the
+// swamp writes too, the two writers clobber each other (probe: every key of the overlapping request lost). The exact exemption
+// from the open Close() findings is therefore the "closeover" step below: immediate-write swamp, every request in flight
+// summoned the swamp before the Close(), and nobody summons it again until they have all returned.
+func (s *c16Sw) closeSafe() bool { return false }
+
+// closeover: all nWriters requests of the step (each writer issues exactly one Set-handler request) are held by the plan
+// right after SummonSwamp returned (before BeginVigil). Then the listener-like decision is taken (no vigil is active) and
+// either the requests are released first and Close() follows lateUs later (vigils begun before closing=1, saves land during
+// and after the close write), or Close() runs to completion first (saves land in the closed instance). No other request
+// summons the swamp before all of them have returned, so in immediate-write mode every save is written through.
+func (s *c16Sw) closeover(nWriters int, closeFirst bool, lateUs int) {
+	const ev = "closeover-go"
+	deadline := time.Now().Add(1500 * time.Millisecond)
+	for vsched.PausedNow() < nWriters && time.Now().Before(deadline) {
+		time.Sleep(50 * time.Microsecond)
+	}
+	if vsched.PausedNow() < nWriters || !s.e.r.IsOpen(s.name) {
+		vsched.Signal(ev)
+		s.class("closeover-not-armed")
+		return
+	}
+	ctx, cancel := context.WithTimeout(context.Background(), 40*time.Second)
+	sw, err := s.e.r.Z.GetHydra().SummonSwamp(ctx, s.isl, name.Load(s.name))
+	cancel()
+	if err != nil || sw == nil || sw.HasActiveVigils() {
+		vsched.Signal(ev)
+		s.class("closeover-not-armed")
+		return
+	}
+	if closeFirst {
+		sw.Close()
+		vsched.Signal(ev)
+		s.class("closeover-close-then-saves")
+	} else {
+		vsched.Signal(ev)
+		if lateUs > 0 {
+			time.Sleep(time.Duration(lateUs) * time.Microsecond)
+		}
+		sw.Close()
+		s.class("closeover-saves-straddle-close")
+	}
+	s.teardownHappened()
+}
+
+func (s *c16Sw) injectClose() { s.injectCloseLate(0) }
+
+func (s *c16Sw) injectCloseLate(lateUs int) {
 	h := s.e.r.Z.GetHydra()
 	if !s.e.r.IsOpen(s.name) {
 		return
@@ -411,9 +495,19 @@ func (s *c16Sw) injectClose() {
 	if err != nil || sw == nil {
 		return
 	}
-	if sw.HasActiveVigils() {
-		s.class("inject-close-skipped-active-vigil")
-		return
+	// like the listener: decide only when no vigil is active (look for such a moment for a short while) ...
+	deadline := time.Now().Add(5 * time.Millisecond)
+	for sw.HasActiveVigils() {
+		if time.Now().After(deadline) {
+			s.class("inject-close-skipped-active-vigil")
+			return
+		}
+		time.Sleep(20 * time.Microsecond)
+	}
+	// ... and act a little later (the listener's check and its Close() are not atomic either)
+	if lateUs > 0 {
+		time.Sleep(time.Duration(lateUs) * time.Microsecond)
+		s.class("close-decided-then-delayed")
 	}
 	sw.Close()
 	s.teardownHappened()
@@ -434,7 +528,7 @@ func (s *c16Sw) waitEvicted(max time.Duration) bool {
 
 // quiesceIfStale (restricted mode): a burst must not begin on an instance whose idle period may be expiring — wait for the eviction instead.
 func (s *c16Sw) quiesceIfStale() {
-	if !s.open || s.idle >= 600 {
+	if !s.open || s.idle >= 600 || s.closeSafe() {
 		return
 	}
 	s.mu.Lock()
@@ -478,7 +572,7 @@ func (s *c16Sw) event(ev C16Event) {
 	}
 	switch ev.Kind {
 	case "close":
-		s.injectClose()
+		s.injectCloseLate(ev.LateUs)
 	case "delall":
 		s.del(c16AllKeys()...)
 		s.teardownHappened()
@@ -487,6 +581,8 @@ func (s *c16Sw) event(ev C16Event) {
 		s.teardownHappened()
 	case "destroy":
 		s.destroy()
+	case "closeover":
+		s.closeover(ev.AtUs>>8, ev.AtUs&1 == 1, ev.LateUs)
 	case "delkey":
 		k := ev.Key
 		if k < 0 {
@@ -509,8 +605,11 @@ func (s *c16Sw) nextVal(tag string) string {
 
 // burst runs the writers (and, in free mode, the lifecycle events) of one step concurrently. Returns a hang description or "".
 func (s *c16Sw) burst(bi int, st C16Step) string {
-	s.quiesceIfStale()
-	if s.open {
+	raw := st.Kind == "closeover" // no pin Set in front: every Set is held by the plan until the close decision
+	if !raw {
+		s.quiesceIfStale()
+	}
+	if s.open && !raw {
 		// the pin record keeps the swamp non-empty during the burst, so that no delete of the burst auto-destroys it (open finding)
 		s.set("pin", s.nextVal(fmt.Sprintf("b%dpin", bi)), expNone)
 	}
@@ -541,6 +640,8 @@ func (s *c16Sw) burst(bi int, st C16Step) string {
 					s.set(fmt.Sprintf("x%d", k%2), s.nextVal(tag), expPast)
 				case "setfuture": // a record with an expiry far in the future
 					s.set(fmt.Sprintf("f%d", k%2), s.nextVal(tag), expFuture)
+				case "mset": // one request, one summon, one vigil, many sequential saves
+					s.mset(wi%6, 4+k*3, tag)
 				case "setown":
 					s.set(fmt.Sprintf("s%d", wi%6), s.nextVal(tag), expNone)
 				case "delshared":
@@ -565,8 +666,14 @@ func (s *c16Sw) burst(bi int, st C16Step) string {
 			}
 		}(wi, w)
 	}
-	if s.free() {
+	{
 		for _, ev := range st.Ev {
+			if !s.free() && !(ev.Kind == "close" && s.closeSafe()) && !(raw && ev.Kind == "closeover") {
+				continue // restricted mode: no lifecycle event overlaps requests, except the closeover shape
+			}
+			if ev.Kind == "closeover" {
+				ev.AtUs = len(st.W)<<8 | ev.AtUs&0xff // the event needs the number of writers it waits for
+			}
 			wg.Add(1)
 			go func(ev C16Event) {
 				defer wg.Done()
@@ -640,6 +747,11 @@ func (s *c16Sw) run(sw C16Swamp) string {
 				return h
 			}
 			bi++
+		case "closeover":
+			if h := s.burst(bi, st); h != "" {
+				return h
+			}
+			bi++
 		case "closeduring", "destroyduring":
 			s.quiesceIfStale()
 			if h := s.during(bi, st, st.Kind == "destroyduring"); h != "" {
@@ -649,7 +761,7 @@ func (s *c16Sw) run(sw C16Swamp) string {
 		case "gap":
 			time.Sleep(time.Duration(st.Ms) * time.Millisecond)
 		case "idle":
-			if s.open {
+			if s.open && !(s.closeSafe() && st.Ms > 0) {
 				if s.idle >= 600 {
 					continue
 				}
@@ -1024,6 +1136,9 @@ func trunc(a []string, n int) []string {
 // ---------------------------------------------------------------------------
 // generators
 
+// the site between SummonSwamp's return and BeginVigil in Gateway.Set
+const c16SetVigilSite = "gateway:Set:BeginVigil:3b19eb"
+
 var c16Sites = []string{
 	"swamp:startCloseListener:atomic.LoadInt64:c7ae2e",
 	"swamp:startCloseListener:Lock:3e9e87",
@@ -1083,7 +1198,7 @@ func genC16Plan(t *rapid.T, max int, pauses bool) []vsched.Action {
 func genC16Writers(t *rapid.T, maxW, maxOps int, deletes bool) []C16Writer {
 	var ws []C16Writer
 	n := rapid.IntRange(1, maxW).Draw(t, "nwriters")
-	kinds := []string{"set", "set", "set", "setown", "setpast", "setfuture", "inc", "inc", "patch", "patch", "get"}
+	kinds := []string{"set", "set", "set", "setown", "setpast", "setfuture", "inc", "inc", "patch", "patch", "get", "mset"}
 	if deletes {
 		kinds = append(kinds, "del", "del")
 		if !pbt.Open("C16", c16WMark) {
@@ -1116,6 +1231,16 @@ func genC16Swamp(t *rapid.T, free, slow bool) C16Swamp {
 	// immediate-write swamps: single-key deletes/shifts inside bursts are the trigger of finding c16WOrder (a pending delete
 	// marker that a concurrent handler has snapshotted while the key is re-created)
 	dels := !(sw.WI == 0 && pbt.Open("C16", c16WOrder))
+	if !slow && sw.WI == 0 && rapid.IntRange(0, 2).Draw(t, "closeover") > 0 {
+		// first step: Set requests (one per writer, some of them multi-key) overlapped by a Close() — see closeover()
+		st := C16Step{Kind: "closeover"}
+		for i := rapid.IntRange(1, 4).Draw(t, "cow"); i > 0; i-- {
+			op := C16Op{Kind: rapid.SampledFrom([]string{"mset", "mset", "set", "setown", "setfuture"}).Draw(t, "coop"), Key: rapid.IntRange(1, 11).Draw(t, "cokey")}
+			st.W = append(st.W, C16Writer{Ops: []C16Op{op}})
+		}
+		st.Ev = []C16Event{{Kind: "closeover", AtUs: rapid.IntRange(0, 1).Draw(t, "closefirst"), LateUs: rapid.SampledFrom([]int{0, 50, 300, 1500}).Draw(t, "late")}}
+		sw.Steps = append(sw.Steps, st)
+	}
 	nb := rapid.IntRange(2, 4).Draw(t, "nbursts")
 	idles := 0
 	for b := 0; b < nb; b++ {
@@ -1176,7 +1301,13 @@ func genC16(mode string, free bool) func(t *rapid.T) C16Scenario {
 			s.Plan = genC16Plan(t, 4, false)
 		} else {
 			s.Swamps = []C16Swamp{genC16Swamp(t, free, false)}
-			s.Plan = genC16Plan(t, 5, true)
+			if len(s.Swamps[0].Steps) > 0 && s.Swamps[0].Steps[0].Kind == "closeover" {
+				// hold every Set right after its summon until the close decision of the first step (later Sets pass: the event is
+				// sticky); no other pause actions, so that "n goroutines are held" means "all n requests have summoned the swamp"
+				s.Plan = append([]vsched.Action{{Site: c16SetVigilSite, Hit: 0, Kind: "pause", Until: "closeover-go", MaxWaitMs: 400}}, genC16Plan(t, 4, false)...)
+			} else {
+				s.Plan = genC16Plan(t, 5, true)
+			}
 			if rapid.Bool().Draw(t, "slowteardown") {
 				// keep the teardown in progress for a while so that requests really arrive while the instance is closing
 				us := rapid.SampledFrom([]int{500, 2000, 5000}).Draw(t, "teardownus")
